@@ -855,7 +855,9 @@ def documented_required(flag, spec):
             elif f.strip() == "optional":
                 req = False
         return req
-    return part(p1, p1.startswith("^")), part(p2, p2.split(";")[0].endswith("$"))
+    # (a part that forbids internal matches -- leading / trailing X -- is restricted to its end of the read like an anchored one
+    # and counts as anchored here, the reading the C18 oracle takes as well)
+    return part(p1, p1.startswith(("^", "X", "x"))), part(p2, p2.split(";")[0].endswith(("$", "X", "x")))
 
 
 def oracle_c09_linked_required(ent):
